@@ -9,6 +9,7 @@ package harness
 import (
 	"bytes"
 	"fmt"
+	"net"
 	"runtime"
 	"strconv"
 	"strings"
@@ -813,5 +814,89 @@ func TestC20_registry_parallel_start(t *testing.T) {
 			return c20SCase{Backend: rapid.SampledFrom([]string{"gometrics", "datadog"}).Draw(t, "backend"), Starters: rapid.IntRange(2, 8).Draw(t, "starters"), Trials: rapid.IntRange(10, 30).Draw(t, "trials")}
 		},
 		Run: runC20S, NoShrink: true,
+	})
+}
+
+// ---- the address-based datadog constructor -----------------------------------------------------------------
+//
+// NewMetricRegistry(addr, prefix, ...) builds its own statsd client; observed through a UDP listener on the
+// loopback interface. Samples must arrive under normalised-prefix + ID, also for the empty prefix (the package
+// default "limiter.", as for the go-metrics registry). Waiting for a datagram is bounded by a guard whose expiry
+// is inconclusive, never a violation.
+
+type c20ACase struct {
+	Prefix string `json:"prefix"`
+	Kind   string `json:"kind"` // dist | timing | count | gauge
+	ID     int    `json:"id"`
+}
+
+func runC20A(_ *testing.T, c c20ACase) kit.Outcome {
+	pc, err := net.ListenPacket("udp", "127.0.0.1:0")
+	if err != nil {
+		return kit.Outcome{Labels: []string{"skipped:no-loopback-udp"}} // nothing can be observed here: a skipped case, not a verdict
+	}
+	defer pc.Close()
+	r, err := datadog.NewMetricRegistry(pc.LocalAddr().String(), c.Prefix, 200*time.Microsecond)
+	if err != nil {
+		return kit.Outcome{Harness: err.Error()}
+	}
+	id := fmt.Sprintf("m%d", c.ID)
+	switch c.Kind {
+	case "dist":
+		r.RegisterDistribution(id).AddSample(7)
+	case "timing":
+		r.RegisterTiming(id).AddSample(7)
+	case "count":
+		r.RegisterCount(id).AddSample(7)
+	default:
+		r.RegisterGauge(id, func() (float64, bool) { return 7, true })
+		r.Start()
+		defer stopRegistry(r)
+	}
+	p := c.Prefix
+	if p == "" {
+		p = "limiter."
+	}
+	if !strings.HasSuffix(p, ".") {
+		p += "."
+	}
+	want := p + id
+	buf := make([]byte, 65536)
+	deadline := time.Now().Add(20 * time.Second)
+	var seen []string
+	for time.Now().Before(deadline) {
+		_ = pc.SetReadDeadline(time.Now().Add(500 * time.Millisecond))
+		n, _, err := pc.ReadFrom(buf)
+		if err != nil {
+			continue
+		}
+		for _, line := range strings.Split(string(buf[:n]), "\n") {
+			name, _, _, ok := parseStatsd(line)
+			if !ok {
+				continue
+			}
+			if name == want {
+				return kit.Outcome{NonTrivial: true, Labels: []string{"kind:" + c.Kind, fmt.Sprintf("default-prefix:%v", c.Prefix == "")}}
+			}
+			if strings.HasSuffix(name, id) {
+				return kit.Viol("datadog:name", "registry built with NewMetricRegistry(addr, prefix %q): the %s %q reached the statsd endpoint as %q, expected %q", c.Prefix, c.Kind, id, name, want)
+			}
+			seen = append(seen, name)
+		}
+	}
+	_ = seen
+	return kit.Outcome{Labels: []string{"skipped:no-datagram-within-guard"}} // inconclusive by construction (real clock): a skipped case
+}
+
+func TestC20_datadog_address_constructor(t *testing.T) {
+	kit.RequireMode(t, "std")
+	kit.Check(t, kit.Prop[c20ACase]{
+		ID: "C20", Quick: 12, Thor: 300,
+		Rule: "datadog.NewMetricRegistry (own statsd client, UDP listener on loopback) x prefixes (empty = package default, with / without trailing dot) x metric kinds: the metric reaches the endpoint under normalised-prefix + ID; non-trivial = a datagram carrying the metric was observed (cases without loopback UDP or without a datagram within the 20 s guard are skipped and labelled)",
+		Gen: func(t *rapid.T) c20ACase {
+			return c20ACase{Prefix: rapid.SampledFrom([]string{"", "", "p", "p.", "svc.x"}).Draw(t, "prefix"),
+				Kind: rapid.SampledFrom([]string{"dist", "timing", "count", "gauge"}).Draw(t, "kind"), ID: rapid.IntRange(0, 99).Draw(t, "id")}
+		},
+		Run: runC20A, NoShrink: true,
 	})
 }
